@@ -527,6 +527,18 @@ class DestHandler:
         self._fsm_advancement_after_packets_were_sent()
         pdu_holder = PduHolder(packet)
         if (
+            packet is not None
+            and pdu_holder.pdu_directive_type == DirectiveType.EOF_PDU
+            and self.states.step
+            in [
+                TransactionStep.WAITING_FOR_MISSING_DATA,
+                TransactionStep.WAITING_FOR_FINISHED_ACK,
+            ]
+        ):
+            # The sender re-sent the EOF PDU, so the ACK (EOF) PDU was probably lost. Every
+            # received EOF PDU must be acknowledged (CFDP 4.7.2).
+            self._prepare_eof_ack_packet()
+        if (
             self.states.step
             in [
                 TransactionStep.RECEIVING_FILE_DATA,
